@@ -43,10 +43,41 @@ def gen_detect(rng, tier):
             e = rng.choice(list(S.ENC)); b = rng.random() < 0.5
             data = S.with_bom(b, e, list(text)) + ([0x61] * rng.choice([0, 0, 130]) if S.ENC[e][0] == 8 else [])
             cases.append("detect.stream %d %s %s" % (rng.randrange(2), rng.choice(S.KINDS), S.hx(data)))
+    # the stream overload on a stream the caller has already read from (a preamble of 1..200 bytes before the text)
+    for text in itertools.product(SPECIAL + [0x41], repeat=2):
+        for e in S.ENC:
+            for b in (False, True):
+                pre = rng.choice([1, 2, 3, 4, 7, 32, 127, 128, 129, 200])
+                tail = [0x61] * rng.choice([0, 5, 140]) if S.ENC[e][0] == 8 else []
+                data = [rng.randrange(1, 256) for _ in range(pre)] + S.with_bom(b, e, [0x41] + list(text)) + tail
+                cases.append("detect.at %d %s %d %s" % (rng.randrange(2), rng.choice(S.KINDS), pre, S.hx(data)))
     for _ in range(2000 if tier == "quick" else 20000):
         data = [rng.choice([0, 0, 0x61, 0xFF, 0xFE, 0xEF, 0xBB, 0xBF, rng.randrange(256)]) for _ in range(rng.randrange(0, 12))]
         cases.append(("detect %s" % S.hx(data)) if rng.random() < 0.7 else "detect.stream %d %s %s" % (rng.randrange(2), rng.choice(S.KINDS), S.hx(data)))
     return cases, meta
+
+
+def judge_detect_at(case, out):
+    """DetectEncoding(istream&) called at get position p > 0 of a SEEKABLE stream: the stream is left good at p (skipBom = false)
+    or just behind a BOM that starts at p (skipBom = true), and the next bytes are the ones of the data at that position"""
+    t = case.split(" ")
+    skip, kind, pre = t[1] == "1", t[2], int(t[3])
+    data = bytes.fromhex(t[4]) if t[4] != "-" else b""
+    if out.startswith(("CRASH", "SANITIZER", "TERMINATE", "HANG")):
+        return "FAIL", "did not return: %s" % out
+    if kind not in S.SEEKABLE_KINDS:
+        return "UNKNOWN", ""
+    body = data[pre:]
+    bl = 0
+    for bom in (b"\xef\xbb\xbf", b"\xff\xfe\x00\x00", b"\x00\x00\xfe\xff", b"\xff\xfe", b"\xfe\xff"):
+        if body.startswith(bom):
+            bl = len(bom); break
+    pos = pre + (bl if skip else 0)
+    f = dict(x.split(":") for x in out.split(" ")[1:] if ":" in x)
+    want_r = data[pos:pos + 4].hex() or "-"
+    if f.get("t") == str(pos) and f.get("r") == want_r and f.get("f") == "0":
+        return "HOLD", "stream left at the text"
+    return "FAIL", "after DetectEncoding at position %d the stream must stand at %d and deliver %s next; answer: %s" % (pre, pos, want_r, out)
 
 
 def boundary_text(K, e, bom, d, ch):
@@ -247,7 +278,7 @@ def run(ctx, vlib):
         classes[op] = classes.get(op, 0) + 1
         if c not in seen:
             seen.add(c)
-            if op in ("esr", "esw", "detect", "detect.stream") and len(c.split(" ")[-1]) > 8:
+            if op in ("esr", "esw", "detect", "detect.stream", "detect.at") and len(c.split(" ")[-1]) > 8:
                 nontriv += 1
         # the property predicate itself on the implementation's answer
         if op == "detect" and c in dmeta:
@@ -256,6 +287,8 @@ def run(ctx, vlib):
             v, why = S.judge_esr(c, a, emeta.get(c))
         elif op == "esw":
             v, why = judge_esw(c, a)
+        elif op == "detect.at":
+            v, why = judge_detect_at(c, a)
         elif a.startswith(("CRASH", "SANITIZER", "TERMINATE", "HANG")):
             v, why = "FAIL", "did not return: %s" % a
         else:
@@ -281,7 +314,7 @@ def run(ctx, vlib):
     samples.append(dict(sweep="esrcuts %d %d %s %s <%d bytes> %d %d" % (s0[0], s0[1], s0[2], s0[3], len(s0[4]) // 2, s0[5], s0[6])))
     return dict(evaluations=len(cases) + sw_evals, distinct_nontrivial=nontriv + sw_nontriv, samples=samples, classes=classes,
                 failing=failing, diffs=diffs, known_lines=known,
-                rule="detection: all texts of 1..3 characters over a 12-character alphabet (ASCII, NUL, Latin-1, BMP, astral) x 5 schemes x BOM, the stream overload on the shorter ones x skipBom x stream kinds, random byte strings; reader: texts of about 3K+5 bytes with a character of every UTF-8 length (1..4) / UTF-16 length starting at each stream offset K-4..K+4 and 2K-4..2K+4 x 5 schemes x BOM x 3 target widths x K in {32,64,256} x both policies, run at EVERY cut point of the byte stream (quick: every cut for K=32,64, the cuts within 8 bytes of 0, K, 2K and the end for K=256) as hashed sweeps bisected on mismatch; random mixed texts with cuts / ill-formed insertions / garbage x stream kinds; ill-formed and uncompleted sequences of every kind starting at each stream offset K-8..K+2 and 2K-8..2K+2 (straddling the chunk boundaries, at the end of the stream, followed by a part of a code unit) x 5 schemes x BOM x K x both policies, judged against skip_spec / the well-formed prefix; writer: random pieces of the three widths incl. ill-formed ones; every explicit answer of the implementation is also judged against an independent reading of the property; non-trivial = reader run that is not the single-chunk answer 'SE' / explicit case longer than 4 bytes",
+                rule="detection: all texts of 1..3 characters over a 12-character alphabet (ASCII, NUL, Latin-1, BMP, astral) x 5 schemes x BOM, the stream overload on the shorter ones x skipBom x stream kinds, and on streams the caller has already read 1..200 bytes from (detect.at, judged independently: position and next bytes), random byte strings; reader: texts of about 3K+5 bytes with a character of every UTF-8 length (1..4) / UTF-16 length starting at each stream offset K-4..K+4 and 2K-4..2K+4 x 5 schemes x BOM x 3 target widths x K in {32,64,256} x both policies, run at EVERY cut point of the byte stream (quick: every cut for K=32,64, the cuts within 8 bytes of 0, K, 2K and the end for K=256) as hashed sweeps bisected on mismatch; random mixed texts with cuts / ill-formed insertions / garbage x stream kinds; ill-formed and uncompleted sequences of every kind starting at each stream offset K-8..K+2 and 2K-8..2K+2 (straddling the chunk boundaries, at the end of the stream, followed by a part of a code unit) x 5 schemes x BOM x K x both policies, judged against skip_spec / the well-formed prefix; writer: random pieces of the three widths incl. ill-formed ones; every explicit answer of the implementation is also judged against an independent reading of the property; non-trivial = reader run that is not the single-chunk answer 'SE' / explicit case longer than 4 bytes",
                 exhaustive=True, broken="correspondence stream model (M-DET / M-ESR / M-ESW) vs convert_utf.h (drv_stream)",
                 extra=dict(sweeps=len(sweeps), sweep_evaluations=sw_evals, verdicts=verdicts))
 
